@@ -28,7 +28,8 @@ import (
 IMPORTS
 )
 
-var verifPool = []string{"1.0.0", "1.0", "1", "01.0.0", "v1.0.0", "1.0.0+build", "1.0.0-1", "2.0.0", "1.10.0", "1.2.0", "1.9.0", "0.9", "1.0.0-alpha", "1.0.0-beta", "1.0.0-rc1", "1.0.0.rc1", "1.0a", "1.0.0_p1", "1.0.0-r1", "1:1.0", "v1.2.3", "1.2.3", "10.0", "1.0.0.0", "3"}
+var verifPool = []string{"1.0.0", "1.0", "1", "01.0.0", "v1.0.0", "1.0.0+build", "1.0.0-1", "2.0.0", "1.10.0", "1.2.0", "1.9.0", "0.9", "1.0.0-alpha", "1.0.0-beta", "1.0.0-rc1", "1.0.0.rc1", "1.0a", "1.0.0_p1", "1.0.0-r1", "1:1.0", "v1.2.3", "1.2.3", "10.0", "1.0.0.0", "3",
+	"1.0.0-alpha.1", "1.0.0-alpha.1.0", "1.0.0-rc.2", "1.0.0-rc.2.5", "1.0.0-alpha.beta", "1.0.0-a.b.c", "1.0.0-0", "1.0.0~rc1", "1.0.0_rc1", "1.0.0.post1", "1.0.0.dev1", "1.0.0a1", "1.0.0-SNAPSHOT", "1.0.0-sp", "1.0.0^git1", "1.0.0+b1"}
 
 func verifUnquote(line string) ([]string, bool) {
 	var out []string
@@ -63,19 +64,25 @@ func verifPerms(xs []string) [][]string {
 func verifSort[V univers.Version[V], VR univers.VersionRange[V]](name string, e univers.Ecosystem[V, VR], fails map[string]string, evals map[string]int) {
 	var valid []string
 	for _, s := range verifPool {
+		if name == "alpm" && strings.Contains(s, "-") {
+			// vercmp(8) defines a missing pkgrel as equal to any pkgrel, which no transitive order satisfies (the scoped
+			// exclusion of C01); lists that mix versions with and without a pkgrel are therefore not claimed
+			continue
+		}
 		if _, err := e.NewVersion(s); err == nil {
 			valid = append(valid, s)
 		}
 	}
 	if len(valid) == 0 {
-		fails["pool"] = name + ": no valid version in the pool"
+		fails[name+"/pool"] = "no valid version in the pool"
 		return
 	}
 	fail := func(clause, msg string) {
-		if _, seen := fails[clause]; !seen {
-			fails[clause] = name + ": " + msg
+		if _, seen := fails[name+"/"+clause]; !seen {
+			fails[name+"/"+clause] = msg
 		}
 	}
+	count := func(clause string) { evals[name+"/"+clause]++ }
 	cmp := func(a, b string) int {
 		x, _ := e.NewVersion(a)
 		y, _ := e.NewVersion(b)
@@ -109,7 +116,7 @@ func verifSort[V univers.Version[V], VR univers.VersionRange[V]](name string, e 
 		ref := ""
 		for _, in := range perms {
 			out, code, raw := runSort(in)
-			evals["multiset"]++
+			count("multiset")
 			if code != 0 {
 				fail("multiset", fmt.Sprintf("sort %q exits %d: %s", in, code, strings.TrimSpace(raw)))
 				continue
@@ -121,13 +128,13 @@ func verifSort[V univers.Version[V], VR univers.VersionRange[V]](name string, e 
 				fail("multiset", fmt.Sprintf("sort %q printed %q: not the same strings", in, out))
 				continue
 			}
-			evals["ordered"]++
+			count("ordered")
 			for i := 1; i < len(out); i++ {
 				if cmp(out[i-1], out[i]) > 0 {
 					fail("ordered", fmt.Sprintf("sort %q printed %q: %q is above %q", in, out, out[i-1], out[i]))
 				}
 			}
-			evals["classes"]++
+			count("classes")
 			c := classes(out)
 			if ref == "" {
 				ref = c
@@ -145,6 +152,10 @@ func verifSort[V univers.Version[V], VR univers.VersionRange[V]](name string, e 
 		checkList(dup, verifPerms(dup))
 		tail := valid[len(valid)-min(5, len(valid)):]
 		checkList(tail, verifPerms(tail))
+		// a window of five sliding over the whole pool, so that every neighbourhood of spellings meets in a short list
+		for at := 0; at+5 <= len(valid); at += 2 {
+			checkList(valid[at:at+5], verifPerms(valid[at:at+5]))
+		}
 	}
 	// sampled shuffles of a 64-element list
 	rng := rand.New(rand.NewSource(SEED))
@@ -167,7 +178,7 @@ func verifSort[V univers.Version[V], VR univers.VersionRange[V]](name string, e 
 			}
 			in := append(append(append([]string{}, valid[:pos]...), badv), valid[pos:min(len(valid), pos+2)]...)
 			_, code, raw := runSort(in)
-			evals["invalid-input"]++
+			count("invalid-input")
 			if code == 0 {
 				fail("invalid-input", fmt.Sprintf("sort %q exits 0 and prints %q", in, strings.TrimSpace(raw)))
 				continue
@@ -188,15 +199,14 @@ func TestVerifReplay(t *testing.T) {
 	fails := map[string]string{}
 	evals := map[string]int{}
 CALLS
-	for _, k := range []string{"multiset", "ordered", "classes", "invalid-input"} {
-		if msg, bad := fails[k]; bad {
-			fmt.Printf("VERIF-SORT\t%s\tFAIL\t%s\n", k, msg)
-		} else {
-			fmt.Printf("VERIF-SORT\t%s\tok\tevals=%d\n", k, evals[k])
+	for _, eco := range []string{ECOLIST} {
+		for _, k := range []string{"multiset", "ordered", "classes", "invalid-input", "pool"} {
+			if msg, bad := fails[eco+"/"+k]; bad {
+				fmt.Printf("VERIF-SORT\t%s/%s\tFAIL\t%s\n", eco, k, msg)
+			} else if k != "pool" {
+				fmt.Printf("VERIF-SORT\t%s/%s\tok\tevals=%d\n", eco, k, evals[eco+"/"+k])
+			}
 		}
-	}
-	if msg, bad := fails["pool"]; bad {
-		fmt.Printf("VERIF-SORT\tpool\tFAIL\t%s\n", msg)
 	}
 	fmt.Println("VERIF-DONE")
 }
@@ -213,6 +223,7 @@ func sortHarnessSource(seed int) string {
 	}
 	src := strings.Replace(sortHarnessHead, "IMPORTS\n", imports.String(), 1)
 	src = strings.Replace(src, "CALLS\n", calls.String(), 1)
+	src = strings.Replace(src, "ECOLIST", quoteList(sortEcosystems), 1)
 	return strings.Replace(src, "SEED", fmt.Sprint(seed), 1)
 }
 
@@ -256,7 +267,7 @@ func runSortHarness(w *World) *sortResult {
 }
 
 func (w *World) sortVCs() []VC {
-	bound := "20 ecosystems x lists drawn from a pool of 25 spellings (those the ecosystem accepts): all permutations of lists of length 1..6 (with duplicates and Compare-equal spellings), 40 seeded shuffles of a 64-element list, an invalid input at 3 positions"
+	bound := "20 ecosystems x lists drawn from a pool of 41 spellings (those the ecosystem accepts): all permutations of lists of length 1..6 and of every window of five over the pool (with duplicates and Compare-equal spellings), 40 seeded shuffles of a 64-element list, an invalid input at 3 positions"
 	clauses := map[string]string{
 		"multiset":      "the CLI sort command prints exactly the input strings (as a multiset)",
 		"ordered":       "every adjacent pair of the printed versions is in non-decreasing order under the ecosystem's Compare",
@@ -264,24 +275,26 @@ func (w *World) sortVCs() []VC {
 		"invalid-input": "an invalid input gives a non-zero exit, an error that names it, and no partial result",
 	}
 	var vcs []VC
-	for _, k := range []string{"multiset", "ordered", "classes", "invalid-input"} {
-		k := k
-		vcs = append(vcs, VC{Name: "cmd.run.c07.sort[" + k + "].bounded", Prop: "C07", Kind: "bounded.api", Fn: "cmd.sort", Bounded: bound, Pos: "cmd/commands.go", Clause: clauses[k],
-			Run: func() SolveResult {
-				r := runSortHarness(w)
-				res := SolveResult{Solver: "enumeration(go test -overlay)", Seconds: r.secs / 4}
-				st, ok := r.status[k]
-				switch {
-				case !r.done || !ok || r.status["pool"][0] == "FAIL":
-					res.Status, res.Output = "error", "harness did not complete: "+truncate(lastLines(r.out, 6), 600)
-				case st[0] == "ok":
-					res.Status, res.Output = "unsat", st[1]
-				default:
-					res.Status, res.Output = "sat", st[1]
-					res.cx = &Counterexample{Confirmed: true, Observed: st[1], How: "real CLI run(<ecosystem> sort ...) on lists of valid versions", Output: st[1]}
-				}
-				return res
-			}})
+	for _, eco := range sortEcosystems {
+		for _, k := range []string{"multiset", "ordered", "classes", "invalid-input"} {
+			eco, k := eco, k
+			vcs = append(vcs, VC{Name: "cmd.run.c07.sort[" + eco + "/" + k + "].bounded", Prop: "C07", Kind: "bounded.api", Fn: "cmd.sort", Bounded: bound, Pos: "cmd/commands.go", Clause: eco + ": " + clauses[k],
+				Run: func() SolveResult {
+					r := runSortHarness(w)
+					res := SolveResult{Solver: "enumeration(go test -overlay)", Seconds: r.secs / 80}
+					st, ok := r.status[eco+"/"+k]
+					switch {
+					case !r.done || !ok || r.status[eco+"/pool"][0] == "FAIL":
+						res.Status, res.Output = "error", "harness did not complete: "+truncate(lastLines(r.out, 6), 600)
+					case st[0] == "ok":
+						res.Status, res.Output = "unsat", st[1]
+					default:
+						res.Status, res.Output = "sat", st[1]
+						res.cx = &Counterexample{Confirmed: true, Observed: st[1], How: "real CLI run(" + eco + " sort ...) on lists of valid versions", Output: st[1]}
+					}
+					return res
+				}})
+		}
 	}
 	return vcs
 }
